@@ -145,8 +145,22 @@ def make(kind, R):
                                             radio_ip=RadioIP(radio_id=edge(24)), renew_time_seconds=R.randrange(1, 0xFFFE))
         elif kind in HDAP_HEX:
             data = HDAP.from_bytes(bytes.fromhex(R.choice(HDAP_HEX[kind])))
+        raw = HRNP(opcode=op, data=data, **common).as_bytes()
+        if R.random() < 0.35:
+            # adversarial CLEAN case, computed with the reference arithmetic: choose the packet number so that the 16-bit ones-complement
+            # sum lands on the end-around-carry boundary (first fold produces another carry / sums 0xFFFF, 0x0000)
+            body = raw[:10] + raw[12:]
+            body += b"\x00" * (len(body) % 2)
+            s0 = sum(int.from_bytes(body[i:i + 2], "big") for i in range(0, len(body), 2)) - int.from_bytes(raw[6:8], "big")
+            for j in R.sample(range(-3, 4), 7):
+                pn = (0xFFFF - (s0 & 0xFFFF) - (s0 >> 16) + j) & 0xFFFF
+                tot = s0 + pn
+                if (tot & 0xFFFF) + (tot >> 16) >= 0xFFFF:
+                    common["packet_number"] = pn
+                    raw = HRNP(opcode=op, data=data, **common).as_bytes()
+                    break
         b = bitarray()
-        b.frombytes(HRNP(opcode=op, data=data, **common).as_bytes())
+        b.frombytes(raw)
         return b.to01()
     raise KeyError(kind)
 
